@@ -83,7 +83,9 @@ func (e *ContainerEdits) Apply(spec *oci.Spec) error {
 	}
 
 	for _, d := range e.DeviceNodes {
-		dn := DeviceNode{d}
+		// fill in missing info on a copy, the original might be cached
+		node := *d
+		dn := DeviceNode{&node}
 
 		err := dn.fillMissingInfo()
 		if err != nil {
